@@ -234,8 +234,24 @@ def eval_cell(pane, ctxs, di, ti, cpath, res, mode='plain'):
     res['states'] += 1
     cell = {'d': di, 't': ti, 'ctx': list(cpath), 'mode': mode}
     desc = f"from_data({values.expr(data)[:80]}, {grammar.render(ast)} in context {'/'.join(names)}{', custom={int: <stock int converter>}' if mode != 'plain' else ''})"
+    if mode in ('yaml', 'json'):
+        # the same datum arriving through a file reader (only data the format carries faithfully)
+        import io as _io
+        import json as _json
+        import yaml as _yaml
+        try:
+            text = _yaml.safe_dump(data) if mode == 'yaml' else _json.dumps(data)
+            back = _yaml.safe_load(text) if mode == 'yaml' else _json.loads(text)
+        except Exception:  # noqa
+            return
+        if not values.typed_eq(back, data):
+            return
+        desc = f"from_{mode}(<{text.strip()[:60]!r}>, {grammar.render(ast)} in context {'/'.join(names)})"
     try:
-        out = pane.from_data(values.fresh(data), ty) if mode == 'plain' else pane.from_data(values.fresh(data), ty, custom=_int_table())
+        if mode in ('yaml', 'json'):
+            out = (pane.from_yaml if mode == 'yaml' else pane.from_json)(_io.StringIO(text), ty)
+        else:
+            out = pane.from_data(values.fresh(data), ty) if mode == 'plain' else pane.from_data(values.fresh(data), ty, custom=_int_table())
         got = 'ok'
     except ConvertError:
         got = 'rej'
@@ -321,7 +337,7 @@ def run_shard(shard, tier):
     for ti in range(len(TARGETS)):
         for p in paths:
             # 'custom': the same call with custom={int: stock int converter} (single contexts, and inside list / dict value)
-            for mode in (('plain', 'custom') + (('construct',) if p == (0,) else ()) if len(p) == 1 or p[0] in (1, 4) and tier == 'thorough' else ('plain',)):
+            for mode in (('plain', 'custom', 'yaml', 'json') + (('construct',) if p == (0,) else ()) if len(p) == 1 or p[0] in (1, 4) and tier == 'thorough' else ('plain',)):
                 try:
                     eval_cell(pane, ctxs, di, ti, p, res, mode)
                 except Exception as e:  # noqa
